@@ -51,6 +51,16 @@ def resolve(prog):
     F.LOCAL = r"(?:self\.%s\.%s|libp2p_kad::kbucket::key::Key::preimage\(self\.%s\))" % (F.local_key, F.pre, F.local_key)
 
 
+PROG = None
+PROBLEMS = []
+ANALYSED = set()
+
+
+def recv(b, callee_pat, recv_pat):
+    """like lk.recv_calls, plus calls of private helpers that perform exactly one such call on every path"""
+    return lk.with_helpers(PROG, b, lambda x: lk.recv_calls(x, callee_pat, recv_pat), PROBLEMS, ANALYSED)
+
+
 def local_edges(b, want):
     """edges on which `local == X.provider` has truth value `want`; returns {edge: X}"""
     out = {}
@@ -78,12 +88,17 @@ def local_edges(b, want):
 
 
 def check(ctx):
-    prog = lk.canon(ctx)
+    global PROG
+    prog = PROG = lk.canon(ctx)
+    del PROBLEMS[:]
+    ANALYSED.clear()
+    ANALYSED.update(x.npath for x in prog.find(K, MS))
     resolve(prog)
     check_put(ctx, prog)
     check_add(ctx, prog)
     check_remove(ctx, prog)
     check_who(ctx, prog)
+    ctx.ob("who", "every helper that mutates the store has a path-independent effect (summarised at its call sites)", not PROBLEMS, msg=str(sorted(set(PROBLEMS)))[:300])
 
 
 def entry_key(b, s):
@@ -203,14 +218,14 @@ def check_add(ctx, prog):
         e = b.site_expr(s)
         ctx.ob("providers", "pushes the given record into this key's list", render(e[2][1]) == "#2" and bool(oiw) and render(e[2][0]) == R(b, oiw[0]), s.loc(), R(b, s)[:160])
     full = tg(lk.rel_edges(b, PL, MP, ">="))
-    pmut = lk.recv_calls(b, r"HashSet::(insert|remove|replace)$", PROVIDED)
+    pmut = recv(b, r"HashSet::(insert|remove|replace)$", PROVIDED)
     if full:
         got = cnt(b, full, rets, push + over + pmut)
         ctx.ob("providers", "a full list ignores a new provider", got == (0, 0), W, str(got))
     # ---- provided
-    pins = lk.recv_calls(b, r"^std::collections::HashSet::insert$", PROVIDED)
-    prem = lk.recv_calls(b, r"^std::collections::HashSet::remove$", PROVIDED)
-    prep = lk.recv_calls(b, r"^std::collections::HashSet::replace$", PROVIDED)
+    pins = recv(b, r"^std::collections::HashSet::insert$", PROVIDED)
+    prem = recv(b, r"^std::collections::HashSet::remove$", PROVIDED)
+    prep = recv(b, r"^std::collections::HashSet::replace$", PROVIDED)
     ctx.floor("provided", "add_provider: provided mutations", pins + prem + prep, 2)
     loc_t = local_edges(b, "true")
     loc_f = local_edges(b, "false")
@@ -220,7 +235,7 @@ def check_add(ctx, prog):
     for s in pins + prem + prep:
         ctx.ob("provided", "mutated only for the local node's records", lk.passes(b, s.bb, ed_t), s.loc(), "local_key.preimage() == record.provider on every path to %s" % R(b, s)[:80])
     for s in pins + prep:
-        a = render(b.site_expr(s)[2][1])
+        a = render(lk.eff_expr(b, s)[2][1])
         ctx.ob("provided", "the indexed record is the stored record", a == "libp2p_kad::<record::ProviderRecord as std::clone::Clone>::clone(#2)", s.loc(), a)
     # in-place arm: the region after the same-provider edge up to the return
     inpl = b.reachable(st_, stop_nodes=lib.bbs(heads)) if st_ else set()
@@ -239,7 +254,7 @@ def check_add(ctx, prog):
             order = all(b.dominates(r, i) and r != i for r in rb for i in ib)
             for s in prem:
                 if s.bb in inpl:
-                    a = render(b.site_expr(s)[2][1])
+                    a = render(lk.eff_expr(b, s)[2][1])
                     ctx.ob("provided", "in-place update removes the old element", a == ELEM, s.loc(), a[:160])
         ctx.ob("provided", "in-place update of a local record: remove(old) then insert(new)", (two and order) or one, W,
                "HashSet::insert keeps an existing equal element, so the stale record must be removed first (or HashSet::replace used): remove %s, insert %s, replace %s, remove-before-insert %s" % (r_, i_, p_, order))
@@ -276,7 +291,7 @@ def check_remove(ctx, prog):
     PROVIDED = r"^self\.%s$" % F.provided
     rm = b.call_sites(r"smallvec::SmallVec::remove$")
     ctx.floor("provided", "remove_provider: SmallVec::remove", rm, 1, exact=True)
-    prem = lk.recv_calls(b, r"^std::collections::HashSet::remove$", PROVIDED)
+    prem = recv(b, r"^std::collections::HashSet::remove$", PROVIDED)
     ctx.floor("provided", "remove_provider: provided.remove", prem, 1)
     other = lk.recv_calls(b, r"^std::collections::HashSet::(insert|replace|clear|retain)$", PROVIDED)
     ctx.ob("provided", "remove_provider never adds to provided", not other, W, str([R(b, s)[:60] for s in other]))
@@ -297,7 +312,7 @@ def check_remove(ctx, prog):
     for s in prem:
         ok = lk.passes(b, s.bb, set(loc_t)) and all(x.startswith("smallvec::SmallVec::remove(") for x in loc_t.values())
         ctx.ob("provided", "remove_provider: provided shrinks only for the local node's record", ok, s.loc(), "removed.provider == local_key.preimage()")
-        a = render(b.site_expr(s)[2][1])
+        a = render(lk.eff_expr(b, s)[2][1])
         ctx.ob("provided", "remove_provider: drops the record that was removed from the list", bool(rm) and a == R(b, rm[0]), s.loc(), a[:100])
     if loc_t:
         got = cnt(b, tg(loc_t), rets, prem)
